@@ -207,6 +207,7 @@ theorem verify_wf [DecidableEq F] (g g2 τ : F) (k k2 : Nat) (c α v π : F) :
       = .ok (decide ((c - g * v) * g2 = π * ((τ - α) * g2))) := by
   unfold verify
   simp only [PCV.powers, dot_cons, dot_nil_right]
+  rw [if_neg (by simp)]
   congr 2
   apply propext
   constructor <;> intro h <;> linear_combination h
